@@ -72,14 +72,19 @@ def rule_must_invalidate(ctx):
         nid = 'sync::cache::Cache::invalidate_all'
         for p in _run(ctx, nid, inline_depth=6):
             w = [e for e in p.events if e[0] == 'write' and has_field(e[1], ('valid_after',))]
-            ok = bool(w) and all(is_clock(e[2]) for e in w)
+            # exactly the reading: `now + epsilon` would also hide entries written after the call returned at an unchanged clock reading
+            def _exact(v_):
+                return is_clock(v_) and not any(isinstance(x, tuple) and x and ((x[0] == 'bin' and x[1] not in ('BitAnd',)) or
+                                                (x[0] == 'call' and str(x[1]).split('::')[-1] in ('checked_add', 'checked_sub', 'add', 'sub', 'saturating_add', 'saturating_sub')))
+                                                for x in subterms(v_))
+            ok = bool(w) and all(_exact(e[2]) for e in w)
             r.instance(function=nid, watermark_writes=len(w), value=fmt(w[-1][2])[:60] if w else None, ok=ok)
             if not w:
                 r.violate(nid, 'no-watermark', 'valid_after', 'a normal path of invalidate_all returns without writing valid_after: entries inserted '
                           'before the call stay observable', where=ctx.where(nid), path=[fmt(c)[:70] + ' == ' + str(v) for c, v in p.conds][:6],
                           expected='valid_after = now on every path')
             elif not ok:
-                r.violate(nid, 'watermark-not-clock', 'valid_after', 'valid_after is written with a value that is not a clock reading of this call',
+                r.violate(nid, 'watermark-not-clock', 'valid_after', 'valid_after is written with a value that is not exactly a clock reading of this call (%s)' % fmt(w[-1][2])[:60],
                           where=ctx.where(nid))
         # AUTH-va-writer
         for wfn in ctx.eff.who_has(('write', 'sync::base_cache::Inner', 'valid_after')):
@@ -95,22 +100,37 @@ def rule_must_invalidate(ctx):
     filt = None
     for bi, t in b.calls():
         _, ext, passed = prog.call_targets(b, t)
-        if ext == 'std::iter::Iterator::filter' and passed:
+        if ext and ext.split('::')[-1] in ('filter', 'filter_map', 'retain', 'find', 'take_while', 'skip_while', 'partition') and passed:
             filt = passed[0]
     if filt is None:
         r.violate(nid, 'no-filter', 'Iterator::filter', 'invalidate_entries_if does not filter the entries with the user predicate', where=ctx.where(nid))
     else:
+        def is_pred_call(t_):
+            return isinstance(t_, tuple) and t_ and t_[0] == 'call' and (t_[1] == 'callback' or str(t_[1]).endswith(('call_mut', 'call', 'call_once')))
         for p in _run(ctx, filt, inline_depth=2):
+            if p.diverged:
+                continue
             ret = p.ret
-            calls_pred = isinstance(ret, tuple) and ret and ret[0] == 'call' and (ret[1] == 'callback' or str(ret[1]).endswith(('call_mut', 'call', 'call_once')))
-            uses_value = any(isinstance(x, tuple) and x and x[0] == 'fld' and x[2] == 'value' for x in subterms(ret))
+            # selected <=> the user predicate said true: the closure returns the predicate's result itself (filter), or Some(..) exactly on
+            # the paths where the predicate's result is true (filter_map + then / then_some)
+            direct = is_pred_call(ret)
+            pred_lit = [(c, v) for c, v in p.conds if is_pred_call(c)]
+            sel = None
+            if isinstance(ret, tuple) and ret and ret[0] == 'aggr' and ret[2] in ('Some', 'None'):
+                sel = (ret[2] == 'Some')
+            elif isinstance(ret, tuple) and ret and ret[0] == 'c' and isinstance(ret[1], bool):
+                sel = ret[1]
+            via_lit = sel is not None and len(pred_lit) == 1 and pred_lit[0][1] is sel
+            calls_pred = direct or via_lit
+            pterm = ret if direct else (pred_lit[0][0] if pred_lit else None)
+            uses_value = pterm is not None and any(isinstance(x, tuple) and x and x[0] == 'fld' and x[2] == 'value' for x in subterms(pterm))
             r.instance(function=filt, returns=fmt(ret)[:90], is_user_predicate_result=calls_pred, on_entry_value=uses_value)
             if not (calls_pred and uses_value):
-                r.violate(filt, 'filter-not-predicate', 'closure', 'the filter closure of invalidate_entries_if does not return the user predicate\'s '
-                          'result on (key, value) unchanged (returns %s)' % fmt(ret)[:80], where=ctx.where(filt))
+                r.violate(filt, 'filter-not-predicate', 'closure', 'the filter closure of invalidate_entries_if does not select exactly the entries for which the user predicate on (key, value) '
+                          'is true (returns %s under %s)' % (fmt(ret)[:60], [fmt(c)[:40] + '==' + str(v) for c, v in pred_lit]), where=ctx.where(filt))
     paths = _run(ctx, nid, inline_depth=4)
     rem = [p for p in paths if any(e[0] == 'call' and e[1] == 'std::collections::HashMap::remove' and
-                                   any(isinstance(x, tuple) and x and (x[0] == 'iter_filter' or (x[0] == 'call' and str(x[1]).endswith('Iterator::filter'))) for x in subterms(e[2][1])) for e in p.events)]
+                                   any(isinstance(x, tuple) and x and (x[0] in ('iter_filter', 'iter_filter_map') or (x[0] == 'call' and str(x[1]).endswith(('Iterator::filter', 'Iterator::filter_map')))) for x in subterms(e[2][1])) for e in p.events)]
     r.instance(function=nid, paths=len(paths), paths_removing_filtered_keys=len(rem))
     if not rem:
         r.violate(nid, 'filtered-keys-not-removed', 'HashMap::remove', 'invalidate_entries_if does not remove the keys selected by the predicate', where=ctx.where(nid))
